@@ -177,15 +177,12 @@ Proof.
   unfold labels_of. intros H. apply in_flat_map. exists (LRow lab r). split; [exact H|now left].
 Qed.
 
-Definition label_guard (l : list A) (limit : nat) (tt lz : bool) : Prop :=
-  lz = true -> tt = false -> Nat.min limit (length l) < 100.
-
 Lemma label_fits (l : list A) (limit : nat) (tt lz : bool) lab r :
-  1 <= limit -> label_guard l limit tt lz ->
+  1 <= limit ->
   In (LRow lab r) (shown_lines l limit tt lz) ->
   length (dec_nat lab) <= index_width l limit tt lz - 1.
 Proof.
-  intros Hl G H. destruct (label_le_length _ _ _ _ _ _ Hl H) as [Hn _].
+  intros Hl H. destruct (label_le_length _ _ _ _ _ _ Hl H) as [Hn _].
   unfold index_width. destruct lz.
   - destruct tt.
     + (* lazy top and tail: lazy_length >= n *)
@@ -193,16 +190,14 @@ Proof.
       cbn [negb andb snd]. rewrite skipn_length, firstn_length.
       assert (lab <= length l - limit - 1 + (Nat.min limit (length l) + 1) + 1) by lia.
       pose proof (dec_nat_length_mono _ _ H0). lia.
-    + (* lazy head-only: the index column is 3 wide *)
+    + (* lazy head-only: lazy_length + 1 = rows shown *)
       unfold select_rows. destruct (limit =? 0) eqn:E0; [apply Nat.eqb_eq in E0; lia|].
-      cbn [negb snd].
+      cbn [negb snd]. rewrite firstn_length.
       destruct (shown_rows_labels_ellipsis l limit false true Hl) as [H1 _].
       destruct (H1 eq_refl) as (_ & Hlab & _).
       apply In_LRow_labels in H. rewrite Hlab in H. apply in_seq in H.
-      specialize (G eq_refl eq_refl).
-      assert (lab <= 99) by lia.
-      pose proof (dec_nat_length_mono _ _ H0).
-      change (length (dec_nat 99)) with 2 in H2. change (length (dec_nat (0 + 1))) with 1. lia.
+      assert (lab <= Nat.min limit (length l) - 1 + 1) by lia.
+      pose proof (dec_nat_length_mono _ _ H0). lia.
   - pose proof (dec_nat_length_mono _ _ Hn). lia.
 Qed.
 End Labels.
@@ -237,16 +232,13 @@ Proof.
   - apply Forall_map. apply Forall_forall. intros _ _. apply pasciib_pascii. vm_compute. reflexivity.
 Qed.
 
-Definition frame_guard (f : frame) (cfg : config) : Prop :=
-  label_guard (rows f) (limit cfg) (top_tail cfg) (lazy f).
-
 (* every box line _inner yields is well-formed markup exactly table_width wide *)
 Theorem inner_box_wf f cfg ls :
-  frame_ok f -> pframe f -> 1 <= limit cfg -> 1 <= mcw cfg -> frame_guard f cfg ->
+  frame_ok f -> pframe f -> 1 <= limit cfg -> 1 <= mcw cfg ->
   inner_tagged f cfg = Ok ls ->
   forall ln, In (KBox, ln) ls -> wf ln (table_width f cfg).
 Proof.
-  intros [Hn Hrect] Hp Hl Hm G H ln Hin.
+  intros [Hn Hrect] Hp Hl Hm H ln Hin.
   unfold inner_tagged in H. unfold table_width.
   set (lz := lazy f) in *.
   set (t := fst (select_rows (rows f) (limit cfg) (top_tail cfg) lz)) in *.
@@ -296,66 +288,43 @@ Qed.
 
 (* the final cut: printed width min(table width, display width) for every box line *)
 Theorem box_lines_cut_width f cfg cuts :
-  frame_ok f -> pframe f -> 1 <= limit cfg -> 1 <= mcw cfg -> 1 <= dwidth cfg -> frame_guard f cfg ->
+  frame_ok f -> pframe f -> 1 <= limit cfg -> 1 <= mcw cfg -> 1 <= dwidth cfg ->
   cut_lines f cfg = Ok cuts ->
   forall ln, In (KBox, ln) cuts -> pw ln = Nat.min (table_width f cfg) (dwidth cfg).
 Proof.
-  intros Hok Hp Hl Hm Hd G H ln Hin. unfold cut_lines in H.
+  intros Hok Hp Hl Hm Hd H ln Hin. unfold cut_lines in H.
   destruct (inner_tagged f cfg) as [ls|e] eqn:E; cbn [bind] in H; [|discriminate].
   injection H as <-. apply in_map_iff in Hin. destruct Hin as ([k l0] & Heq & Hin0).
   cbn [fst snd] in Heq. injection Heq as -> <-.
-  pose proof (inner_box_wf f cfg ls Hok Hp Hl Hm G E l0 Hin0) as W.
+  pose proof (inner_box_wf f cfg ls Hok Hp Hl Hm E l0 Hin0) as W.
   apply wf_pw. apply trunc_cut_wf; assumption.
 Qed.
 
 (* ---------- totality of the renderings ---------- *)
-Definition cells_ok (f : frame) : Prop :=
-  forall r c, In r (rows f) -> In c r -> td_ok (cv c).
-
-Lemma inner_tagged_total f cfg : 1 <= limit cfg -> cells_ok f -> exists ls, inner_tagged f cfg = Ok ls.
+Lemma inner_tagged_total f cfg : exists ls, inner_tagged f cfg = Ok ls.
 Proof.
-  intros Hl Hc. unfold inner_tagged.
+  unfold inner_tagged.
   destruct (mapM_total (data_line (lazy f)
               (index_width (rows f) (limit cfg) (top_tail cfg) (lazy f))
               (col_widths f cfg (fst (select_rows (rows f) (limit cfg) (top_tail cfg) (lazy f)))))
               (shown_lines (rows f) (limit cfg) (top_tail cfg) (lazy f))) as [body Hb].
   - intros [|lab r] Hin; cbn [data_line]; [eexists; reflexivity|].
-    destruct (label_le_length _ _ _ _ _ _ Hl Hin) as [_ Hr].
     unfold format_row.
     destruct (mapM_total (fun cw => type_formatter (fst cw) (snd cw))
                (combine r (col_widths f cfg (fst (select_rows (rows f) (limit cfg) (top_tail cfg) (lazy f)))))) as [cells Hcells].
-    + intros [c w] Hcw. apply in_combine_l in Hcw. apply type_formatter_total. eapply Hc; eauto.
+    + intros [c w] _. apply type_formatter_total.
     + rewrite Hcells. cbn [bind]. eexists; reflexivity.
   - rewrite Hb. cbn [bind]. eexists; reflexivity.
 Qed.
 
-Theorem ascii_table_total f cfg : 1 <= limit cfg -> cells_ok f -> exists t, ascii_table f cfg = Ok t.
+Theorem ascii_table_total f cfg : exists t, ascii_table f cfg = Ok t.
 Proof.
-  intros Hl Hc. unfold ascii_table, cut_lines.
-  destruct (inner_tagged_total f cfg Hl Hc) as [ls ->]. cbn [bind]. eexists; reflexivity.
+  unfold ascii_table, cut_lines.
+  destruct (inner_tagged_total f cfg) as [ls ->]. cbn [bind]. eexists; reflexivity.
 Qed.
 
-Theorem df_str_total f cols : cells_ok f -> exists t, df_str f cols = Ok t.
+Theorem df_str_total f cols : exists t, df_str f cols = Ok t.
 Proof.
-  intros Hc. unfold df_str.
-  destruct (ascii_table_total f (str_config cols)) as [t ->]; [vm_compute; lia|exact Hc|].
+  unfold df_str. destruct (ascii_table_total f (str_config cols)) as [t ->].
   cbn [bind]. eexists; reflexivity.
-Qed.
-
-(* a rendering that raises does so on a shown timedelta64 cell that is NaT or in month/year units *)
-Theorem ascii_table_raises f cfg e :
-  1 <= limit cfg -> ascii_table f cfg = Raise e ->
-  exists r c is_nat linear ns, In r (rows f) /\ In c r /\
-    cv c = VNpTimedelta is_nat linear ns /\ (is_nat = true \/ linear = false).
-Proof.
-  intros Hl H. unfold ascii_table, cut_lines, inner_tagged in H.
-  match type of H with context [mapM ?f ?l] => destruct (mapM f l) as [body|e'] eqn:Eb end; cbn [bind] in H; [discriminate|].
-  apply mapM_raise in Eb. destruct Eb as ([|lab r] & Hin & Hf); cbn [data_line] in Hf; [discriminate|].
-  destruct (label_le_length _ _ _ _ _ _ Hl Hin) as [_ Hr].
-  match type of Hf with context [format_row ?r ?ws] => destruct (format_row r ws) as [cells|e''] eqn:Ef end;
-    cbn [bind] in Hf; [discriminate|].
-  unfold format_row in Ef. apply mapM_raise in Ef. destruct Ef as ([c w] & Hcw & Hraise). cbn [fst snd] in Hraise.
-  apply in_combine_l in Hcw.
-  destruct (type_formatter_raises _ _ _ Hraise) as (a & b & n & E1 & E2).
-  exists r, c, a, b, n. auto.
 Qed.
